@@ -15,7 +15,7 @@ pub struct ClientReplay {
 }
 
 fn bad_reply(r: &mut Rng, for_register: bool) -> Reply {
-    match r.below(if for_register { 8 } else { 7 }) {
+    match r.below(if for_register { 9 } else { 7 }) {
         0 => Reply::Refuse,
         1 => Reply::ApiError(*r.pick(&[7u8, 7, 33, 34, 35, 36, 255, 1])),
         2 => Reply::NotJson(r.below(4) as u8),
@@ -23,7 +23,8 @@ fn bad_reply(r: &mut Rng, for_register: bool) -> Reply {
         4 => Reply::OtherKeySignature,
         5 => Reply::MalformedSignature(r.below(4) as u8),
         6 => Reply::Refuse,
-        _ => Reply::NotExtending(r.below(2) as u8),
+        7 => Reply::NotExtending(r.below(2) as u8),
+        _ => Reply::OtherUserReceipt,
     }
 }
 
@@ -101,6 +102,10 @@ pub fn gen_client_history(property: &str, seed: u64) -> ClientHistory {
                 if r.chance(1, 4) {
                     // the subscription ran out while the tower was away: the retrier is the first to learn about it
                     ops.push(COp::Lapse { t });
+                    if r.chance(1, 3) {
+                        // ... and the renewal is answered with a receipt made out to another user
+                        ops.push(COp::Script { t, replies: vec![Reply::OtherUserReceipt] });
+                    }
                 }
                 if r.chance(1, 6) {
                     // the tower comes back but keeps refusing the appointments whatever is renewed: the client backs off,
